@@ -66,8 +66,12 @@ add('C17', _P, 'Lean 4 theorems (status <-> full delivery, NULL callback = syste
 add('C18', _P, 'Lean 4 theorems over all finite OS fault sequences (induction on the number of transient errors) + interposed libc on 3 builds',
     'TJ.Props.C18: n transient errors then success -> 1, the OS bytes, n+1 calls; then a permanent error -> 0, zeroed buffer, n+1 calls; PRNG init on top.' + _TIE,
     'Tie: all sequences over {EINTR,EAGAIN,EIO,ok} to length 4/5 on getrandom / getentropy / raw syscall builds.', '5 C18')
-add('C19', 'exploration', 'symbol audit, interleavings, threads + TSan (Lean frame/commutation theorems: see level text)',
-    'Symbol/section audit of the objects built from the working tree, interleaved-vs-alone histories, real threads under TSan.  Lean part: TJ.Props.C19 (when present).', 'Races in compiled code are observed only on the schedules run.', '5 C19')
+add('C19', _P, 'Lean 4 frame theorem + non-interference for the REGENERATED source (footprint = leakage trace, same for all contents) + per-operation footprint check on interleaved objects + symbol audit, threads and TSan on the compiled code',
+    'TJ.MiniC.Frame.exec_frame / TJ.Props.C19: in the semantics of the program regenerated from the C sources (which has no global component; the translator rejects file-scope variables) a completed call leaves the number of blocks unchanged, '
+    'only extends the trace, and leaves every block that no write event names untouched; the trace, hence the set of blocks read and written, is the same for all contents of all objects (non-interference), and public results do not depend on them.  '
+    'The check runs interleaved per-object histories of every incremental API and the one-shot functions through the interpreter and verifies per operation that no state object other than its own is touched (for all contents, by the theorem) '
+    'and that the result equals the compiled implementation\'s; on the compiled code: no writable data/bss symbols, no heap imports, interleaved-vs-alone results, 8 real threads on disjoint objects vs serial results, ThreadSanitizer.',
+    'Partial: independence of a result from the contents of untouched blocks is proved only for public data (non-interference), not as a full frame-independence / commutation theorem; data races in compiled code are observed (TSan on the schedules run), not proved.', '5 C19')
 add('C20', _P, 'Lean 4 theorems on the REGENERATED free functions and wipe primitive (symbolic execution of the MiniC terms; loop induction for the volatile fallback) + dumps after free and clean windows on the compiled code',
     'TJ.Props.C20: for the terms regenerated from the current C sources, calling tinyjambu_{hash,hmac,hkdf,prng}_free on a state object of the public size completes and leaves every byte of the object zero, whatever it held (any history), '
     'and changes no other block; tinyjambu_clean zeroes exactly the bytes [off, off+n) for every offset and size (explicit_bzero configuration).  TJ.Props.C20Fallback: the same for the volatile byte loop, regenerated from '
